@@ -76,7 +76,10 @@ func (x *gen) id(p string) string {
 	return fmt.Sprintf("%s%d", p, x.n)
 }
 
-var stringPool = []string{"plain", "", " lead", "trail ", "a<b", "a>b", "a&b", "say \"hi\"", "it's", "tab\there", "line1\nline2", "cr\rhere", "crlf\r\nx", "é", "日本語", "\U0001F600", "]]>", "<!--x-->", "&amp;", "a b", " nbsp", "x y", "{\"j\":1}", "[1,2]", "null", "true", "12", "1e3"}
+var stringPool = []string{"plain", "", " lead", "trail ", "a<b", "a>b", "a&b", "say \"hi\"", "it's", "tab\there", "line1\nline2", "cr\rhere", "crlf\r\nx", "é", "日本語", "\U0001F600", "]]>", "<!--x-->", "&amp;", "a b", " nbsp", "x y", "{\"j\":1}", "[1,2]", "null", "true", "12", "1e3",
+	// legal characters that escaping routines treat specially: DEL, zero-width and line/paragraph separators, NEL, tag
+	// characters, supplementary private use, musical formatting controls
+	"del\x7f", "zw\u200bsp", "ls\u2028ps\u2029", "nel\u0085", "\U000E0067\U000E007F", "\U000F0000pua", "\U0001D173x", "\ufeffbom", "a\u0300"}
 
 // leaf types of the pool with value generators
 func (x *gen) leafType() (*sg.TypeSpec, func() string) {
